@@ -87,7 +87,7 @@ def check(prop, tier):
         p = os.path.join(tlc.workdir("crcdrv"), "o.json")
         run_driver("crc_driver.py", ["--out", p, "--mode", mode, "--seed", sd, "--n", n, "--first-id", first])
         return json.load(open(p))
-    parts = parallel([lambda: drv("all1", 1), lambda: drv("pairs", 1000), lambda: drv("long", 90000), lambda: drv("inplace", 95000),
+    parts = parallel([lambda: drv("all1", 1), lambda: drv("pairs", 1000), lambda: drv("long", 90000), lambda: drv("inplace", 95000), lambda: drv("all2", 2000000), lambda: drv("suffix", 98000),
                       lambda: drv("random", 100000, 500 if tier == "quick" else 20000)])
     traces = [t for p in parts for t in p]
     canary = copy.deepcopy(traces[300])
@@ -118,7 +118,7 @@ def check(prop, tier):
     out.cov["exhaustive"] = not viol
     out.cov["rule"] = ("model: every (checksum, byte) transition of the paired table/bit-serial machine (finite, hence every message "
                        "of every length); conformance: all 256 one-byte messages, one two-byte message per model transition "
-                       "(128 x 256), random messages up to 64 bytes as bytes and as lists; non-trivial = at least two bytes; "
+                       "(128 x 256), all 65536 two-byte messages as bytes/bytearray, messages ending in text-frame / padding suffixes, random messages up to 64 bytes in eight container kinds; non-trivial = at least two bytes; "
                        "distinct by hash of the message")
     out.cov["samples"] = [{"message": [s["in"]["b"] for s in t["steps"]], "running_crc": [s["out"]["c"] for s in t["steps"]]}
                           for t in (traces[5], traces[700], traces[-1])]
